@@ -403,3 +403,30 @@ Proof.
   rewrite Z.rem_mod_nonneg in Ha by lia.
   replace (4 + 4 + zlen p + 4) with (zlen p + 3 * 4) by lia. rewrite Z.mod_add by lia. exact Ha.
 Qed.
+
+(* ---------- Codec.ReadHeader (Listener with an explicit codec: ListenCodec) ---------- *)
+Lemma zlist_eqb_refl (a : list Z) : zlist_eqb a a = true.
+Proof. induction a as [|x a IH]; cbn; [reflexivity|]. rewrite Z.eqb_refl, IH; reflexivity. Qed.
+
+Lemma read_header_ok c s : read_header c (header c ++ s) = Ok s.
+Proof.
+  destruct c; cbn [read_header]; try reflexivity;
+    (rewrite read_full_app by (cbv; reflexivity); cbn [bind]; rewrite zlist_eqb_refl; reflexivity).
+Qed.
+
+Lemma read_header_mismatch c h s :
+  c <> Full -> length h = length (header c) -> h <> header c -> read_header c (h ++ s) = Err EHeader.
+Proof.
+  intros Hc Hl Hne.
+  assert (read_full (zlen (header c)) (h ++ s) = Ok (h, s)) as E.
+  { apply read_full_app_k; [unfold zlen; rewrite Hl; reflexivity|destruct c; try contradiction; cbv; reflexivity]. }
+  destruct c; try contradiction; cbn [read_header]; rewrite E; cbn [bind];
+    (destruct (zlist_eqb h _) eqn:Eq; [apply zlist_eqb_eq in Eq; contradiction|reflexivity]).
+Qed.
+
+(* Full.Write has no alignment check: an unaligned payload may produce a frame that the
+   listener's detection takes for another protocol (here 227 bytes: length word 239 = 0xef) *)
+Lemma detect_full_unaligned :
+  exists f, write_c (fun _ => 0) Full 0 [] (repeat 0 227) = Ok f /\
+            exists s, detect f = Ok (Abridged, s).
+Proof. eexists; split; [vm_compute; reflexivity|]. eexists; vm_compute; reflexivity. Qed.
